@@ -22,7 +22,9 @@ import (
 // been re-encoded from the visited events; a blob the repair cannot fix is an error, never a
 // silent pass-through of the undecoded bytes.
 
-func c17cUTF8Err() error  { return errors.New("proto: field temporal.api.failure.v1.Failure.message contains invalid UTF-8") }
+func c17cUTF8Err() error {
+	return errors.New("proto: field temporal.api.failure.v1.Failure.message contains invalid UTF-8")
+}
 func c17cOtherErr() error { return errors.New("proto: cannot parse invalid wire-format data") }
 
 // fake of the current-schema serializer
